@@ -96,7 +96,10 @@ def showEncLen : Except Error Nat → String
   | .ok n => toString n
   | .error e => e.show
 
-def parseTerm (s : String) : Option V3.Term :=
+def parseTerm (s0 : String) : Option V3.Term :=
+  -- `err:Kind+<hex>`: the transport fails ONCE with that kind and would then deliver <hex>; a decoder
+  -- that has returned the error never sees those bytes, so for the model this is `err:Kind`
+  let s := (s0.splitOn "+").headD s0
   if s = "eof" then some .eof
   else match s.splitOn ":" with
     | ["err", k] => (IoKind.ofName? k).map V3.Term.err
